@@ -184,8 +184,26 @@ static int parallel(double g1, double g2, double da, double db) {
   } catch (...) { printf("parallel constraints: exception in a feasible system\n"); bad++; }
   return bad;
 }
+// an equality added to the live solver on top of a tight inequality with the same gap, then the desired positions change: the equality must
+// hold (or be flagged) after the next solve()
+static int live_equality(void) {
+  Variables vs; Constraints cs; vs.push_back(new Variable(0, 5.0)); vs.push_back(new Variable(1, 5.0));
+  cs.push_back(new Constraint(vs[0], vs[1], 3.0));
+  int bad = 0;
+  try {
+    IncSolver solver(vs, cs); solver.solve();
+    Constraint *eq = new Constraint(vs[0], vs[1], 3.0, true); cs.push_back(eq);
+    solver.addConstraint(eq); solver.satisfy();
+    vs[0]->desiredPosition = 0.0; vs[1]->desiredPosition = 10.0;
+    solver.solve();
+    double sl = vs[1]->finalPosition - 3.0 - vs[0]->finalPosition;
+    if (!eq->unsatisfiable && (sl > 1e-6 || sl < -1e-6)) { printf("equality a+3==b added to the live solver: returned unflagged with slack %g (a=%g, b=%g)\n", sl, vs[0]->finalPosition, vs[1]->finalPosition); bad++; }
+  } catch (...) { printf("live equality: exception in a feasible system\n"); bad++; }
+  return bad;
+}
 int main() {
   int bad = 0;
+  bad += live_equality();
   bad += parallel(1, 3, 0, 0); bad += parallel(1, 3, 5, 0); bad += parallel(2, 7, 0, 1); bad += parallel(0, 1, 3, 3);
   bad += run("one chain of 20", 1, 20, 4);
   bad += run("one group of 100", 1, 100, 10);
@@ -491,6 +509,8 @@ TRUSTED = [
 ASSUMPTIONS = [
     "caller duty of IncSolver::addConstraint: the constraint is also appended to the vector the solver's cs reference aliases (both call sites in libcola/colafd.cpp push first)",
     "Solver construction establishes m == cs.size() and needsScaling iff some variable scale != 1: the first loop body is under contract (unbounded, one arbitrary variable: needsScaling accumulates scale != 1); the constructor as a whole is NOT -- cbmc's C++ front end rejects its reference-member initialisers ('bad reference initializer') and crashes (SIGSEGV in goto-check) on the second loop body's contract -- so m == cs.size(), c->needsScaling == needsScaling and the all-elements step remain assumptions",
+    "incsatisfy_flag_on_evidence also asserts that the constraint taken from the work list is not dropped (active, flagged, or re-queued after the iteration); assumed there: "
+    "Block::merge(b, c) makes c active (block.cpp sets c->active = true)",
     "findMinLM_direct_edge (both solver copies) is a BOUNDED completeness fragment: when an active inequality joins lv and rv directly, Block::findMinLMBetween returns it and does not "
     "raise the 'no split point' exception that IncSolver::satisfy turns into an unsatisfiable flag; assumed: the active constraints of a block form a tree (no second active "
     "connection between the two variables, the recursive search through any other constraint does not reach rv); recomputation of the multipliers is a no-op here",
